@@ -391,6 +391,34 @@ class Recovery:
         return out
 
 
+def model_bound(case):
+    """the pass bound of `Props/C09.lean` (`pass_bound_explicit`, `step_subworkflow`) for this workflow:
+    Σ over the steps of (k + 1); k = 0 for a step that owns no resource, 1 for a ResourceFunction (2 for
+    delete-to-recreate), the maximum over the cases of a refSwitch, the same for any number of forEach items, and
+    the sub-workflow's own bound for a sub-workflow.  Also returns the nesting depth."""
+    by_name = {w["name"]: w for w in case["defs"]}
+
+    def k_target(t):
+        if "wf" in t:
+            b, d = wf_bound(t["wf"])
+            return b, d + 1
+        rf = case["fns"][t["fn"]].get("rf")
+        if not rf or rf["pre"]:
+            return 0, 0
+        return (2 if rf["mode"] == "recreate" else 1), 0
+
+    def wf_bound(name):
+        total, depth = 0, 0
+        for st in by_name[name]["steps"]:
+            lg = st["logic"]
+            ks = [k_target(t) for t in ([lg["ref"]] if "ref" in lg else [t for _, t in lg["switch"]["cases"]])]
+            total += max(k for k, _ in ks) + 1
+            depth = max([depth] + [d for _, d in ks])
+        return total, depth
+
+    return wf_bound(case["main"])
+
+
 def size(case):
     return sum(len(w["steps"]) for w in case["defs"])
 
@@ -414,6 +442,8 @@ def sweep_case(ck, drv, r, case, tier, tag, only=None):
     ck.count(f"src:{tag}")
     ck.count("workflows")
     ck.count(f"never-faulted-passes:{len(traj)}")
+    bound, depth = model_bound(case)
+    worst = [len(traj) - 1]          # passes after which the cluster no longer changes
     if only is None:
         points = [(k, i, kind) for k, (_, b) in enumerate(traj) for i in range(len(b["log"])) for kind in KINDS]
         cap = 90 if tier == "quick" else 120
@@ -456,6 +486,7 @@ def sweep_case(ck, drv, r, case, tier, tag, only=None):
         else:
             d = ck.cov["distribution"]
             d["recovery-passes-max"] = max(d.get("recovery-passes-max", 0), got[2])
+            worst.append(got[2] - 1)
             if snap(got[0]) != snap(ref[0]):
                 violations.append((seq, "after the faults stop the cluster converges to contents different from the "
                                         "never-faulted run's"))
@@ -495,6 +526,19 @@ def sweep_case(ck, drv, r, case, tier, tag, only=None):
                         | {"tasks": TaskView(obs["task_tree"]).top()}, "model-vs-implementation:" + "; ".join(diff))
             break
     ck.count("fault-free-passes", rec.passes)
+    # the model's pass bound must not be contradicted: the cluster is final after at most `bound` fault-free passes
+    pb = ck.cov.setdefault("pass_bound", {})
+    key = f"size={size(case)},depth={depth}"
+    e = pb.setdefault(key, {"workflows": 0, "max_passes_to_final_cluster": 0, "model_bound_min": bound,
+                            "model_bound_max": bound, "min_slack": bound - max(worst)})
+    e["workflows"] += 1
+    e["max_passes_to_final_cluster"] = max(e["max_passes_to_final_cluster"], max(worst))
+    e["model_bound_min"], e["model_bound_max"] = min(e["model_bound_min"], bound), max(e["model_bound_max"], bound)
+    e["min_slack"] = min(e["min_slack"], bound - max(worst))
+    if max(worst) > bound and drv is not None:
+        ck.disagree({"case": c01.compact(case)}, {"pass_bound": bound, "depth": depth},
+                    {"passes_to_final_cluster": max(worst)},
+                    "pass-bound: the cluster still changed after the model's bound of fault-free passes")
     if len(ck.cov["samples"]) < 3:
         ck.sample({"case": c01.compact(case), "calls_per_never_faulted_pass": [b["log"] for _, b in traj],
                    "fault_sequences": len(seqs)}, limit=3)
